@@ -1,4 +1,4 @@
-CONSTANTS MaxDev = 1 MaxSteps = 2 CheckAll = FALSE
+CONSTANTS MaxDev = 1 MaxSteps = 2 CheckAll = FALSE Splits = {} CancelSafe = FALSE
 SPECIFICATION Spec
 INVARIANTS OkMeansClean
 CHECK_DEADLOCK FALSE
